@@ -259,7 +259,7 @@ class Ctx:
         # 2. full build (no-op when up to date)
         mk = subprocess.run(
             "cd %s && flock .lock sh -c '(test -f Makefile && test Makefile -nt _CoqProject || coq_makefile -f _CoqProject -o Makefile) >/dev/null"
-            " && timeout 3000 make -j14 2>&1 | tail -30'" % COQ,
+            " && timeout 3000 make -j14 Properties/%s.vo 2>&1 | tail -30'" % (COQ, self.pid),
             shell=True,
             capture_output=True,
             text=True,
@@ -407,5 +407,8 @@ class Ctx:
         for k, v in self.extra.items():
             if k != "rule":
                 ev["coverage"][k] = jsonable(v)
-        os.makedirs(os.path.join(VERIF, "evidence"), exist_ok=True)
-        json.dump(ev, open(os.path.join(VERIF, "evidence", "%s.json" % self.pid), "w"), indent=1)
+        evdir = os.path.join(VERIF, "evidence")
+        if os.environ.get("VERIF_REPO_SRC", "/repo/src") != "/repo/src":
+            evdir = os.path.join(VERIF, ".work", "evidence-scratch")
+        os.makedirs(evdir, exist_ok=True)
+        json.dump(ev, open(os.path.join(evdir, "%s.json" % self.pid), "w"), indent=1)
